@@ -596,6 +596,14 @@ func (l *lexer) regexError(operand ast.Node, err error) ast.Node {
 	return operand
 }
 
+// errorNode records the error msg and returns a placeholder node, so that a
+// grammar action that rejects its input does not leave a nil node for later
+// reductions (such as ast.LinkNodes) to dereference.
+func (l *lexer) errorNode(msg string) ast.Node {
+	l.Error(msg)
+	return ast.NewConst(ast.ConstNull)
+}
+
 // setPred indicates that the path being lexed is a predicate path query.
 // Called by the parser grammar.
 func (l *lexer) setPred() {
